@@ -14,7 +14,7 @@
     any of the three.
 """
 KIND = {
-    "R01.1": "T", "R01.2": "T", "R01.3": "W", "R01.4": "S", "R01.5a": "S", "R01.5b": "S", "R01.6": "W+S", "R01.7": "W",
+    "R01.1": "T", "R01.2": "T", "R01.3": "W", "R01.4": "S", "R01.5a": "S", "R01.5b": "S", "R01.6": "W+S", "R01.7": "W", "R01.8": "W",
     "R02.1": "T", "R02.2": "T", "R02.3": "S+W", "R02.3b": "T", "R03.2b": "T", "R02.4": "T", "R02.5": "S", "R02.6": "S", "R02.7": "W",
     "R03.1": "T", "R03.2": "S", "R03.3": "T", "R03.4": "W", "R03.5": "S",
     "R04.1": "W", "R04.2": "W", "R04.3": "W", "R04.4": "S", "R04.5": "W+S", "R04.6": "S",
